@@ -3,6 +3,7 @@
 //! concrete bytes (tractable); what the solver quantifies over is the limit, the flags and the failure.
 //! Child module of `transform_stream`.
 // @requires src/transform_stream/dispatcher/verif_kani_mocks.rs
+// @requires src/memory/verif_kani.rs
 use super::dispatcher::verif_kani_mocks::{Ctl, Rec};
 use super::*;
 use crate::base::SharedEncoding;
@@ -72,61 +73,65 @@ fn c11_write_tail_buffering_failure_flushes_each_byte_once() {
     core::mem::forget(ts);
 }
 
-/// Site 1 of write(): a second write cannot be appended to the buffered tail. Graceful ⇒ tail ++ data.
+/// Site 1 of write(): new data cannot be appended to an already buffered tail (injected: "<b" buffered
+/// from an earlier write — only ONE call into the rewriter per harness is within solver reach). Graceful ⇒
+/// the sink gets tail ++ data, each byte once, handlers once; otherwise nothing. The failing limits are
+/// enumerated concretely, the flags are symbolic.
 // @verif props=C11,C10,C12,C15 fns=TransformStream::write
 #[kani::proof]
 #[kani::unwind(12)]
 fn c11_write_append_failure_flushes_tail_and_data() {
-    let limit: usize = kani::any();
-    kani::assume(limit >= 3 && limit <= 8);
     let mem_flag: bool = kani::any();
-    let mut ts = stream(limit, mem_flag, kani::any(), false);
-    let r1 = ts.write(b"ab<im");
-    assert!(r1.is_ok());
-    let r2 = ts.write(b"g x");
-    let d = ts.parser.get_dispatcher();
-    let (sink, ctl) = d.verif_parts();
-    if limit >= 6 {
-        assert!(r2.is_ok());
-        assert!(sink_is(sink, b"ab<img x"), "[C09] once the tag name is complete nothing is held back (no handlers)");
-    } else {
-        assert!(r2.is_err());
+    let handler_flag: bool = kani::any();
+    let mut limit = 2;
+    while limit <= 4 {
+        let mut ts = stream(limit, mem_flag, handler_flag, false);
+        ts.has_buffered_data = true;
+        ts.buffer = crate::memory::verif_kani::arena_holding2(SharedMemoryLimiter::new(limit), *b"<b");
+        let r2 = ts.write(b"r x");
+        let d = ts.parser.get_dispatcher();
+        let (sink, ctl) = d.verif_parts();
+        assert!(matches!(r2, Err(RewritingError::MemoryLimitExceeded(_))), "[C10] exceeding the limit is reported");
         if mem_flag {
-            assert!(sink_is(sink, b"ab<img x"), "[C11] buffered tail and new data are flushed, in order, once");
-            assert!(ctl.bail_outs == 1);
+            assert!(sink_is(sink, b"<br x"), "[C11] buffered tail and new data are flushed, in order, once");
+            assert!(ctl.bail_outs == 1, "[C11] bail-out handlers run exactly once");
         } else {
-            assert!(sink_is(sink, b"ab"));
+            assert!(sink.len == 0, "[C11,C12] without the flag nothing is flushed");
+            assert!(ctl.bail_outs == 0);
         }
+        assert!(sink.empty_chunks == 0);
+        core::mem::forget(r2);
+        core::mem::forget(ts);
+        limit += 1;
     }
-    kani::cover!(limit == 5 && mem_flag);
-    kani::cover!(limit == 6);
-    core::mem::forget(r1);
-    core::mem::forget(r2);
-    core::mem::forget(ts);
+    kani::cover!(mem_flag);
+    kani::cover!(!mem_flag);
 }
 
-/// end(): the buffered tail is flushed once, the end handler runs once, then the single empty chunk;
-/// an end-handler error leaves the tail emitted exactly once and runs no bail-out handler.
+/// end() with a held-back tail (injected: "<b" buffered): the tail is emitted exactly once, the end handler
+/// runs once after it, then the single empty chunk; an end-handler error is NOT a bail-out point (every
+/// byte is already in the sink): no bail-out handler runs and nothing is flushed twice, whatever the flags.
 // @verif props=C11,C12,C01,C15 fns=TransformStream::end
 #[kani::proof]
 #[kani::unwind(12)]
-fn c12_end_flushes_tail_once_even_if_end_handler_fails() {
+fn c12_end_flushes_tail_once_and_no_bail_out_on_end_handler_error() {
     let fail_end: bool = kani::any();
     let handler_flag: bool = kani::any();
-    let mut ts = stream(64, kani::any(), handler_flag, fail_end);
-    let r1 = ts.write(b"a<b");
-    assert!(r1.is_ok());
+    let mem_flag: bool = kani::any();
+    let mut ts = stream(64, mem_flag, handler_flag, fail_end);
+    ts.has_buffered_data = true;
+    ts.buffer = crate::memory::verif_kani::arena_holding2(SharedMemoryLimiter::new(64), *b"<b");
     let r = ts.end();
     let d = ts.parser.get_dispatcher();
     let (sink, ctl) = d.verif_parts();
     assert!(r.is_ok() == !fail_end);
-    assert!(sink_is(sink, b"a<b"), "[C01,C11] the held-back tail is emitted exactly once at end()");
+    assert!(sink_is(sink, b"<b"), "[C01,C11] the held-back tail is emitted exactly once at end()");
     assert!(ctl.ends == 1);
-    assert!(ctl.bail_outs == 0, "[C11] the end handler's error arrives after every byte is in the sink: no bail-out flush");
+    assert!(ctl.bail_outs == 0, "[C11] the end handler's error arrives after every byte is in the sink: no bail-out");
     assert!(sink.empty_chunks == if fail_end { 0 } else { 1 }, "[C12] one final empty chunk iff end() succeeded");
     assert!(!sink.data_after_empty);
     kani::cover!(fail_end && handler_flag);
-    core::mem::forget(r1);
+    kani::cover!(!fail_end);
     core::mem::forget(r);
     core::mem::forget(ts);
 }
